@@ -18,6 +18,7 @@ import (
 	"reflect"
 	"runtime"
 	"runtime/debug"
+	"strconv"
 	"strings"
 	"syscall"
 	"time"
@@ -83,6 +84,106 @@ var shapeTypes = []reflect.Type{
 }
 
 var rawType = reflect.TypeOf(nbt.RawMessage{})
+
+// ---- random shapes (reflect.StructOf): the quantifier "all decode targets" is sampled over shapes too
+
+var scalarTypes = []reflect.Type{
+	reflect.TypeOf(false), reflect.TypeOf(int8(0)), reflect.TypeOf(uint8(0)), reflect.TypeOf(int16(0)), reflect.TypeOf(uint16(0)),
+	reflect.TypeOf(int32(0)), reflect.TypeOf(uint32(0)), reflect.TypeOf(int64(0)), reflect.TypeOf(uint64(0)),
+	reflect.TypeOf(int(0)), reflect.TypeOf(uint(0)), reflect.TypeOf(float32(0)), reflect.TypeOf(""),
+}
+
+// NBT field names: ASCII letters without k/K/s/S, drawn from a small pool in random case so that names
+// which differ only in case (the strings.EqualFold fallback) meet in one struct
+func genFieldName(r *hx.Rng) string {
+	pool := []string{"a", "b", "ab", "na", "me", "id", "x", "tag", "name", "w"}
+	b := []byte(pool[r.Intn(len(pool))])
+	if r.Intn(8) == 0 {
+		b = r.Bytes(1 + r.Intn(3))
+		for i := range b {
+			b[i] = "abcdefghijlmnopqrtuvwxyz"[int(b[i])%24]
+		}
+	}
+	for i := range b {
+		if r.Intn(3) == 0 {
+			b[i] ^= 0x20
+		}
+	}
+	return string(b)
+}
+
+func genFieldType(r *hx.Rng, depth int) reflect.Type {
+	scalar := func() reflect.Type { return scalarTypes[r.Intn(len(scalarTypes))] }
+	anyT := reflect.TypeOf((*any)(nil)).Elem()
+	k := r.Intn(16)
+	if depth <= 1 && (k == 6 || k == 7 || k == 12 || k == 13) {
+		k = r.Intn(6)
+	}
+	switch k {
+	case 0, 1, 2:
+		return scalar()
+	case 3:
+		return reflect.SliceOf(scalar())
+	case 4:
+		return reflect.ArrayOf(r.Intn(4), scalarTypes[r.Intn(len(scalarTypes)-2)]) // no float / string arrays needed, any scalar works
+	case 5:
+		return anyT
+	case 6:
+		return genStruct(r, depth-1)
+	case 7:
+		return reflect.PointerTo(genStruct(r, depth-1))
+	case 8:
+		return reflect.PointerTo(scalar())
+	case 9:
+		return reflect.TypeOf(map[string]any(nil))
+	case 10:
+		return rawType
+	case 11:
+		return reflect.SliceOf(anyT)
+	case 12:
+		return reflect.SliceOf(genStruct(r, depth-1))
+	case 13:
+		return reflect.SliceOf(reflect.PointerTo(genStruct(r, depth-1)))
+	case 14:
+		return reflect.SliceOf(reflect.SliceOf(scalar()))
+	}
+	return reflect.SliceOf(rawType)
+}
+
+// genShapes appends n generated shapes to shapeTypes.
+func genShapes(r *hx.Rng, n int) {
+	for i := 0; i < n; i++ {
+		t := genStruct(r, 1+r.Intn(3))
+		switch r.Intn(6) {
+		case 0:
+			t = reflect.PointerTo(t)
+		case 1:
+			t = reflect.SliceOf(t)
+		}
+		shapeTypes = append(shapeTypes, t)
+	}
+}
+
+// genStruct: 1..6 fields, nesting at most depth
+func genStruct(r *hx.Rng, depth int) reflect.Type {
+	n := 1 + r.Intn(6)
+	seen := map[string]bool{}
+	var fs []reflect.StructField
+	for i := 0; i < n; i++ {
+		f := reflect.StructField{Name: fmt.Sprintf("F%d", i), Type: genFieldType(r, depth)}
+		name := f.Name
+		if r.Intn(5) != 0 {
+			name = genFieldName(r)
+			f.Tag = reflect.StructTag(`nbt:"` + name + `"`)
+		}
+		if seen[name] { // two fields with the same NBT name annihilate each other (typeFields): not modelled
+			continue
+		}
+		seen[name] = true
+		fs = append(fs, f)
+	}
+	return reflect.StructOf(fs)
+}
 
 func baseToken(t reflect.Type) (string, bool) {
 	switch t.Kind() {
@@ -651,6 +752,10 @@ func keyVariants(r *hx.Rng, name string) []byte {
 	return b
 }
 
+// forceLen >= 0 fixes the element count of every slice / array value fitTree draws (long-then-short and
+// short-then-long pairs for duplicate keys and used destinations)
+var forceLen = -1
+
 // fitTree draws a tree that usually decodes into t (and sometimes deliberately does not).
 func fitTree(r *hx.Rng, t reflect.Type, depth int) *c01x.Tree {
 	budget := 30
@@ -689,6 +794,9 @@ func fitTree(r *hx.Rng, t reflect.Type, depth int) *c01x.Tree {
 		n := r.Intn(5)
 		if t.Kind() == reflect.Array && r.Intn(3) != 0 {
 			n = t.Len()
+		}
+		if forceLen >= 0 && (t.Kind() == reflect.Slice || r.Bool()) {
+			n = forceLen
 		}
 		ek := t.Elem().Kind()
 		if r.Bool() { // the typed-array forms
@@ -739,6 +847,136 @@ func fitTree(r *hx.Rng, t reflect.Type, depth int) *c01x.Tree {
 	return c01x.Gen(r, 0, 2, &budget, false)
 }
 
+func fieldKey(f reflect.StructField) string {
+	if tag := f.Tag.Get("nbt"); tag != "" {
+		return strings.SplitN(tag, ",", 2)[0]
+	}
+	return f.Name
+}
+
+// wrapFor builds the document around a compound c so that it reaches the struct inside pointer / slice shapes
+func structOf(t reflect.Type) (reflect.Type, func(c *c01x.Tree) *c01x.Tree) {
+	wrap := func(c *c01x.Tree) *c01x.Tree { return c }
+	for {
+		switch t.Kind() {
+		case reflect.Pointer:
+			t = t.Elem()
+			continue
+		case reflect.Slice:
+			t = t.Elem()
+			inner := wrap
+			wrap = func(c *c01x.Tree) *c01x.Tree {
+				return &c01x.Tree{Kind: c01x.List, Eid: c01x.Compound, List: []*c01x.Tree{inner(c)}}
+			}
+			continue
+		}
+		break
+	}
+	if t.Kind() != reflect.Struct || t == rawType {
+		return nil, nil
+	}
+	return t, wrap
+}
+
+// dupKeys: the same field named twice in one compound - exact name and a case-folded variant, both orders,
+// first value long and second short and the other way round: the second value is decoded INTO what the first left
+func dupKeys(k int) {
+	r := o.R
+	st, wrap := structOf(shapeTypes[k])
+	if st == nil {
+		return
+	}
+	for i := 0; i < st.NumField(); i++ {
+		f := st.Field(i)
+		name := fieldKey(f)
+		for _, lens := range [][2]int{{5, 1}, {1, 5}, {3, 0}, {2, 2}} {
+			forceLen = lens[0]
+			v1 := fitTree(r, f.Type, 3)
+			forceLen = lens[1]
+			v2 := fitTree(r, f.Type, 3)
+			forceLen = -1
+			k1, k2 := []byte(name), keyVariants(r, name)
+			if r.Bool() {
+				k1, k2 = k2, k1
+			}
+			c := &c01x.Tree{Kind: c01x.Compound, Keys: [][]byte{k1, k2}, List: []*c01x.Tree{v1, v2}}
+			if r.Intn(3) == 0 { // a third occurrence, and something unknown in between
+				c.Keys = append(c.Keys, c01x.GenKey(r), keyVariants(r, name))
+				b := 6
+				c.List = append(c.List, c01x.Gen(r, 0, 2, &b, false), fitTree(r, f.Type, 2))
+			}
+			file := r.Bool()
+			feed("shape.dupkey", file, wrap(c).Doc(file, nil), []string{fmt.Sprintf("st:%d", k)}, "")
+		}
+	}
+}
+
+// usedDest: document 1, then document 2 decoded into the SAME Go value (the model gets the first result as the
+// current state of the destination); element counts growing and shrinking
+func usedDest(k int) {
+	r := o.R
+	t := shapeTypes[k]
+	target := fmt.Sprintf("st:%d", k)
+	for _, lens := range [][2]int{{4, 1}, {1, 4}, {-1, -1}, {3, 3}, {0, 2}} {
+		forceLen = lens[0]
+		d1 := fitTree(r, t, 3).Doc(false, nil)
+		forceLen = lens[1]
+		d2 := fitTree(r, t, 3).Doc(false, nil)
+		forceLen = -1
+		if r.Intn(6) == 0 && len(d2) > 2 { // a damaged second document
+			d2 = append([]byte{}, d2...)
+			d2[r.Intn(len(d2))] ^= 1 << uint(r.Intn(8))
+		}
+		w1, w2 := refWalk(d1, false), refWalk(d2, false)
+		if w1.hostile >= hostileMin || w2.hostile >= hostileMin || w1.deep > deepMin || w2.deep > deepMin {
+			continue
+		}
+		dst := reflect.New(t)
+		var res result
+		done := make(chan result, 1)
+		first := true
+		go func() {
+			var r2 result
+			r2.Panic = hx.Try(func() {
+				d0 := nbt.NewDecoder(bytes.NewReader(d1))
+				d0.NetworkFormat(true)
+				if _, err := d0.Decode(dst.Interface()); err != nil {
+					r2 = result{Class: "first-err"}
+					return
+				}
+				first = false
+				br := bytes.NewReader(d2)
+				dec := nbt.NewDecoder(br)
+				dec.NetworkFormat(true)
+				name, err := dec.Decode(dst.Interface())
+				if err != nil {
+					r2 = result{Class: "err", Err: err}
+					return
+				}
+				var sb strings.Builder
+				canon(&sb, dst.Elem())
+				r2 = result{Class: "ok", Name: []byte(name), Value: sb.String(), Left: br.Len()}
+			})
+			if r2.Panic != "" {
+				r2.Class = "panic"
+			}
+			done <- r2
+		}()
+		select {
+		case res = <-done:
+		case <-time.After(c01x.Watchdog):
+			res = result{Class: "hang"}
+		}
+		_ = first
+		if res.Class == "first-err" {
+			continue
+		}
+		idx++
+		o.Case("shape.used.st", true, fmt.Sprintf("D %d net %s %s %s", idx, caseTarget(target), hx.Hex(d1), hx.Hex(d2)), res.Line(fmt.Sprintf("D %d", idx)))
+		judge("shape.used", false, target, d2, w2, res, "")
+	}
+}
+
 // ---------------------------------------------------------------------------------------------
 // one input, a set of targets: run, record for the model, evaluate the predicate
 
@@ -748,10 +986,12 @@ var (
 	untyped   = []string{"any", "map", "raw", "dyn", "snbt", "skip"}
 	hostileQ  []hostileCase
 	allocSeen int
+	predOnly  bool // cases fed while this is set go to the predicate only
 	trace     = os.Getenv("C03_TRACE") != "" // print every in-process case before it runs (debugging a runaway)
 )
 
 type hostileCase struct {
+	noModel bool // judged by the predicate only (the model is quadratic in the nesting depth: 14 s per line at the limit)
 	cat    string
 	file   bool
 	target string
@@ -847,7 +1087,7 @@ func feed(cat string, file bool, data []byte, targets []string, mustFail string)
 	w := refWalk(data, file)
 	for _, target := range targets {
 		if w.hostile >= hostileMin || w.deep > deepMin {
-			hostileQ = append(hostileQ, hostileCase{cat, file, target, data, w})
+			hostileQ = append(hostileQ, hostileCase{predOnly, cat, file, target, data, w})
 			continue
 		}
 		idx++
@@ -948,6 +1188,16 @@ const (
 
 func childMain() {
 	debug.SetMemoryLimit(1 << 30)
+	// the same generated shapes as the parent: same seed, same first draws
+	seed, err := strconv.ParseUint(os.Getenv("VERIF_SEED"), 10, 64)
+	if err != nil {
+		seed = 20260926
+	}
+	n := 28
+	if len(os.Args) > 2 && os.Args[2] == "thorough" {
+		n *= 10
+	}
+	genShapes(hx.NewRng(seed), n)
 	_ = syscall.Setrlimit(syscall.RLIMIT_AS, &syscall.Rlimit{Cur: childAS, Max: childAS})
 	in := bufio.NewScanner(os.Stdin)
 	in.Buffer(make([]byte, 1<<20), 1<<26)
@@ -977,7 +1227,8 @@ type child struct {
 }
 
 func startChild() *child {
-	cmd := exec.Command(os.Args[0], "--child")
+	cmd := exec.Command(os.Args[0], "--child", o.Tier)
+	cmd.Env = append(os.Environ(), fmt.Sprintf("VERIF_SEED=%d", o.Seed))
 	in, _ := cmd.StdinPipe()
 	outp, _ := cmd.StdoutPipe()
 	errb := &bytes.Buffer{}
@@ -1059,7 +1310,7 @@ func runHostile() {
 		if res.Class == "ok" {
 			line = res.Line(fmt.Sprintf("R %d", idx))
 		}
-		if len(h.data) > modelMax {
+		if len(h.data) > modelMax || h.noModel {
 			o.Eval("hostile."+h.cat+"."+strings.SplitN(h.target, ":", 2)[0], true, fmt.Sprintf("%s %s %d bytes deep=%d -> %s", fmtName(h.file), h.target, len(h.data), h.w.deep, res.Class))
 		} else {
 			o.Case("hostile."+h.cat+"."+strings.SplitN(h.target, ":", 2)[0], true,
@@ -1197,6 +1448,9 @@ func main() {
 	defer o.Close()
 	r := o.R
 	names := [][]byte{{}, []byte("root"), {0}}
+	fixedShapes := len(shapeTypes)
+	genShapes(r, o.N(28, 10)) // the first draws of the run: the child process repeats them from the same seed
+	o.Note("destination shapes: %d compiled + %d generated with reflect.StructOf, e.g. %s", fixedShapes, len(shapeTypes)-fixedShapes, shapeOf(shapeTypes[len(shapeTypes)-1]))
 
 	// ---- documents over the whole grammar, every root kind
 	for root := byte(1); root <= 12; root++ {
@@ -1216,7 +1470,7 @@ func main() {
 		mutate("random", t, r.Bool(), c01x.GenKey(r), fit, false)
 	}
 	// ---- documents aimed at the struct shapes (duplicate and case-folded keys, misfits, unknown fields)
-	for i := 0; i < o.N(36, 12); i++ {
+	for i := 0; i < len(shapeTypes)+o.N(8, 30); i++ {
 		k := i % len(shapeTypes)
 		t := fitTree(r, shapeTypes[k], 3)
 		fit := []string{fmt.Sprintf("st:%d", k)}
@@ -1224,6 +1478,11 @@ func main() {
 			fit = append(fit, fmt.Sprintf("st:%d", r.Intn(len(shapeTypes))))
 		}
 		mutate("shape", t, r.Bool(), c01x.GenKey(r), fit, false)
+	}
+	// the same field twice in one compound, and a second document into a used destination: every shape
+	for k := range shapeTypes {
+		dupKeys(k)
+		usedDest(k)
 	}
 	// interface{} field decoded twice: the second value must fit the Go type of the first (incl. float32 -> float64)
 	for i := 0; i < o.N(120, 10); i++ {
@@ -1268,22 +1527,24 @@ func main() {
 	//      400000 levels fit a 2 MiB protocol frame, 10^6 a file.  All in the child process.
 	nest := func(list bool, n int, wrap string) []byte {
 		var d []byte
+		id := byte(10)
+		if list {
+			id = 9
+		}
 		switch wrap { // the nested value sits in a field of the struct shape S1: known (any) or unknown (skipped)
-		case "B":
-			d = append(d, 10, 0, 1, 'B')
-			n--
-		case "zz":
-			d = append(d, 10, 0, 2, 'z', 'z')
+		case "":
+			d = append(d, id)
+		default:
+			d = append(d, 10, id, 0, byte(len(wrap)))
+			d = append(d, wrap...)
 			n--
 		}
 		if list {
-			d = append(d, 9)
 			for i := 1; i < n; i++ {
 				d = append(d, 9, 0, 0, 0, 1)
 			}
 			d = append(d, 0, 0, 0, 0, 0)
 		} else {
-			d = append(d, 10)
 			for i := 1; i < n; i++ {
 				d = append(d, 10, 0, 1, 'a')
 			}
@@ -1296,22 +1557,30 @@ func main() {
 		}
 		return d
 	}
+	// eight of them also go to the model (one shard each)
+	feed("depth", false, nest(true, maxOpen, ""), []string{"any", "dyn"}, "")
+	feed("depth", false, nest(true, maxOpen+1, ""), []string{"any", "raw"}, "")
+	feed("depth", false, nest(false, maxOpen, ""), []string{"snbt"}, "")
+	feed("depth", false, nest(false, maxOpen+1, ""), []string{"dyn"}, "")
+	feed("depth", false, nest(false, maxOpen, "B"), []string{"st:0"}, "")
+	feed("depth", false, nest(false, maxOpen+1, "zz"), []string{"st:0"}, "")
+	predOnly = true
 	for _, n := range []int{maxOpen, maxOpen + 1} {
 		for _, list := range []bool{true, false} {
 			feed("depth", false, nest(list, n, ""), []string{"any", "raw", "dyn", "snbt", "ty:sl:any"}, "")
 			feed("depth", false, nest(list, n, "B"), []string{"st:0"}, "")
 			feed("depth", false, nest(list, n, "zz"), []string{"st:0", "skip"}, "")
 		}
+		feed("depth", false, nest(false, n, ""), []string{"map", "skip"}, "")
 	}
-	feed("depth", false, nest(false, maxOpen, ""), []string{"map", "skip"}, "")
-	feed("depth", false, nest(false, maxOpen+1, ""), []string{"map", "skip"}, "")
 	for i, n := range []int{100000, 400000, 1000000} {
 		if n > 400000 && !o.Thorough() {
-			n = 420000
+			continue
 		}
 		feed("depth", false, nest(i%2 == 0, n, ""), []string{"any", "raw", "dyn", "snbt", "skip"}, "")
 		feed("depth", false, nest(i%2 == 1, n, "B"), []string{"st:0"}, "")
 	}
+	predOnly = false
 
 	// ---- uniform random strings (first byte biased towards the 13 ids)
 	for i := 0; i < o.N(1500, 30); i++ {
